@@ -1,2 +1,20 @@
-From InvokeVerif Require Export Corr.RunnerCorr.
-Definition spec (k : case) : bool := spec08 k.
+(** C08 correspondence: the shared runner case (Corr/RunnerCorr.v) plus the poll
+    granularity -- which consecutive events of the script fall between the same
+    two iterations of the wait loop ([b_sizes]: sizes of the bursts, in order;
+    empty = one event per burst = the plain [run_sm] script). *)
+From InvokeVerif Require Export Corr.RunnerCorr Model.RunnerBursts.
+
+Record case := mkb {
+  b_base : RunnerCorr.case;
+  b_sizes : list nat
+}.
+
+Definition corr (k : case) : bool :=
+  let b := b_base k in
+  sm_obs_eqb (observe (run_bursts (cfg_of b) (group (k_script b) (b_sizes k)))) (k_obs b) &&
+  opt_nat_eqb (model_interval b) (k_interval b) && k_text_ok b.
+
+(** the property does not talk about poll granularity ("whatever the relative
+    timing of output, exit and input events"): the observation is judged against
+    the flat script *)
+Definition spec (k : case) : bool := spec08 (b_base k).
